@@ -588,6 +588,7 @@ def handle (st : DState) (line : String) : DState × String :=
   | "flush" :: rest => (st, handleFlush rest)
   | "flushw" :: _ => (st, "any")   -- schedule of the wrapper run: the observations are judged by `flush consistent`
   | "router" :: _ => (st, "any")   -- concurrent key-set creation on several connections: judged by the harness oracle only
+  | "pipex" :: _ => (st, "any")    -- concurrency through one configuration object / appended schema fields: harness oracle only
   | "parsex" :: _ => (st, "any")   -- the input's composite parser (parser + extraction transforms): judged by the harness oracle only
   | "flushl" :: _ => (st, "any")   -- listener run: judged by `flush bound` and the harness oracle
   | "time" :: rest => (st, handleTime rest)
